@@ -20,6 +20,7 @@ Scenario line (space separated):
                    <n>t<b>    event n, if it is a write, first writes its first min(b, len-1) bytes
                    e          no crash point: SIGKILL after the ops of the phase (and after the rebuild, if nothing else ran)
                    q          clean shutdown (SIGTERM) after the ops of the phase
+                   <n>q, <n>t<b>q   the crash point stays armed during a clean shutdown that follows the ops
     After the last phase squid is started once more without any fault injection and every key is probed (only-if-cached),
     then one more object is stored under a fresh URL and everything is probed again.
 Observation:
@@ -86,12 +87,13 @@ def parse_ops(tok):
 
 
 def parse_crash(tok):
+    """-> (kind, event number, torn bytes, clean shutdown after the ops)"""
     if tok in ("e", "q"):
-        return (tok, 0, 0)
-    m = re.fullmatch(r"(\d+)(?:t(\d+))?", tok)
+        return (tok, 0, 0, tok == "q")
+    m = re.fullmatch(r"(\d+)(?:t(\d+))?(q?)", tok)
     if not m or int(m.group(1)) < 1:
         return None
-    return ("n", int(m.group(1)), int(m.group(2) or 0))
+    return ("n", int(m.group(1)), int(m.group(2) or 0), m.group(3) == "q")
 
 
 def parse_line(line):
@@ -198,6 +200,59 @@ class Reaper:
             pass
 
 
+
+ROCK_HEADER = 16384
+CELL = 40
+
+
+def rock_geometry(slot_size):
+    """slotLimitActual of a 1 MB rock cache_dir"""
+    return (ROCK_MB * 1024 * 1024 - ROCK_HEADER) // slot_size
+
+
+def parse_meta(buf):
+    """Store::UnpackIndexSwapMeta (+ ZeroedSlot) on the bytes that follow a cell header / start a ufs file
+    -> 'z' | 'u' | ('o', keyhex or None, swap_file_sz, flags, swap_hdr_sz)"""
+    if len(buf) >= 10 and buf[:10] == b"\0" * 10:
+        return "z"
+    if len(buf) < 5 or buf[0] != 3:
+        return "u"
+    total = struct.unpack("<i", buf[1:5])[0]
+    if total < 5 or total > len(buf):
+        return "u"
+    pos, key, sfs, flags = 5, None, 0, 0
+    while pos < total:
+        if pos + 5 > total:
+            return "u"
+        typ = buf[pos]
+        ln = struct.unpack("<i", buf[pos + 1:pos + 5])[0]
+        if ln < 0 or ln > 65536 or pos + 5 + ln > total:
+            return "u"
+        val = buf[pos + 5:pos + 5 + ln]
+        if typ == 3:
+            if ln != 16:
+                return "u"
+            key = val.hex()
+        elif typ == 9:
+            if ln != 44:
+                return "u"
+            sfs = struct.unpack("<Q", val[32:40])[0]
+            flags = struct.unpack("<H", val[42:44])[0]
+        elif typ == 5:
+            if ln != 44:          # old_metahdr has the same size on this platform
+                return "u"
+            sfs = struct.unpack("<Q", val[32:40])[0]
+            flags = struct.unpack("<H", val[42:44])[0]
+        pos += 5 + ln
+    return ("o", key, sfs, flags, total)
+
+
+def meta_text(m, keyname):
+    if m in ("z", "u"):
+        return m
+    return "o.%s.%d.%d.%d" % (keyname(m[1]) if m[1] else "none", m[2], m[3], m[4])
+
+
 def rock_header(b):
     """DbCellHeader: key[2] u64, entrySize u64, payloadSize u32, version u32, firstSlot i32, nextSlot i32"""
     if len(b) < 40:
@@ -217,6 +272,7 @@ class Run:
         self.vers = {}           # (url, ver) -> (n, seed, chunked)
         self.nswap = {}
         self.trace = []          # per phase: list of event records
+        self.images = []         # per phase: what the cache_dir holds when the phase is over
         self.lock = threading.Lock()
         conf = dirconf(sc["store"]) + COMMON + ("cache_peer 127.0.0.1 parent %d 0 no-query no-digest originserver name=o\n"
                                                  "never_direct allow all\n" % self.origin.port)
@@ -297,7 +353,7 @@ class Run:
             k = 0
             while k < min(len(b), len(r["body"])) and b[k] == r["body"][k]:
                 k += 1
-            bad += "!body(%d/%d@%d)" % (len(r["body"]), len(b), k)
+            bad += "!body(%d/%d@%d)" % (len(r["body"]), len(b), k) + self.describe_body(url, r["body"])
         for n, v in hd:
             if v not in rig.hall(r["hdrs"], n.lower()):
                 bad += "!hdr-" + n
@@ -373,6 +429,149 @@ class Run:
             return "P=%s" % (r["status"] if r else "fail")
         return "?"
 
+
+    # -- what is on the disk after a phase ---------------------------------------------------------------
+    def segments(self, url, ver, cap):
+        """the payload pieces (cap bytes each, the first one starting with the h bytes squid prepends) of a version:
+        list of (offset in the body, bytes of the body in that piece)"""
+        n, seed, chunked = self.vers[(url, ver)]
+        b = self.obj(url, ver)[0]
+        h = self.h.h
+        out, pos, j = [], 0, 0
+        total = h + n
+        while pos < total:
+            lo, hi = max(pos, h) - h, min(pos + cap, total) - h
+            out.append((lo, b[lo:max(lo, hi)], min(pos + cap, total) - pos))
+            pos += cap
+            j += 1
+        return out
+
+    def identify_piece(self, payload, inode, cap):
+        """which piece of which version these payload bytes are -> 'k0v2p1' or 'x'"""
+        h = self.h.h
+        with self.lock:
+            vers = sorted(self.vers)
+        for (url, ver) in vers:
+            name = url.rsplit("/", 1)[1]
+            for j, (lo, seg, plen) in enumerate(self.segments(url, ver, cap)):
+                if plen != len(payload):
+                    continue
+                if j == 0:
+                    if inode and payload[h:] == seg and (b"X-Ver: %sv%04d\r\n" % (name.encode(), ver)) in payload[:h]:
+                        return "%sv%dp0" % (self.short(name), ver)
+                elif payload == seg:
+                    return "%sv%dp%d" % (self.short(name), ver, j)
+        return "x"
+
+    @staticmethod
+    def short(name):
+        return name[0] + str(int(name[1:]))
+
+    def rock_image(self):
+        slot_size = int(self.sc["store"][4:])
+        nslots = rock_geometry(slot_size)
+        cells = []
+        try:
+            with open(os.path.join(self.cache, "rock"), "rb") as f:
+                for i in range(nslots):
+                    f.seek(ROCK_HEADER + i * slot_size)
+                    d = f.read(max(slot_size, 4096))          # loadOneSlot reads SM_PAGE_SIZE bytes whatever the slot size
+                    if len(d) < CELL:
+                        cells.append("%d,t" % i)
+                        continue
+                    hd = rock_header(d)
+                    if hd["first"] == 0 and hd["next"] == 0 and hd["ps"] == 0:
+                        continue
+                    k0, k1 = struct.unpack("<QQ", d[:16])
+                    meta = parse_meta(d[CELL:4096])
+                    payload = d[CELL:CELL + hd["ps"]] if hd["ps"] <= slot_size - CELL else b""
+                    tag = self.identify_piece(payload, hd["first"] == i, slot_size - CELL) if payload else "x"
+                    cells.append("%d,%s,%d,%d,%d,%d,%d,%d,%d,%s,%s" % (i, self.h.keyname(hd["key"]), k0, k1, hd["es"], hd["ps"], hd["ver"], hd["first"], hd["next"],
+                                                                      meta_text(meta, self.h.keyname), tag))
+        except OSError as e:
+            return "rock:error:%s" % type(e).__name__
+        return "rock:%d:%d:%s" % (slot_size, nslots, ";".join(cells) or "-")
+
+    def identify_file(self, data):
+        """-> (keyname from the swap metadata or 'u', tag): tag = k0v2c (the complete object), k0v2p<bytes> (a proper prefix of it), x"""
+        meta = parse_meta(data[:4096])
+        if meta in ("z", "u"):
+            return "u", "x", 0
+        keyname = self.h.keyname(meta[1]) if meta[1] else "none"
+        hdr = meta[4]
+        with self.lock:
+            vers = sorted(self.vers)
+        for (url, ver) in vers:
+            name = url.rsplit("/", 1)[1]
+            if (b"X-Ver: %sv%04d\r\n" % (name.encode(), ver)) not in data[:hdr + 600]:
+                continue
+            b = self.obj(url, ver)[0]
+            total = self.h.h + len(b)
+            if len(data) == total and data[self.h.h:] == b:
+                return keyname, "%sv%dc" % (self.short(name), ver), hdr
+            if len(data) < total and len(data) >= self.h.h and data[self.h.h:] == b[:len(data) - self.h.h]:
+                return keyname, "%sv%dp%d" % (self.short(name), ver, len(data)), hdr
+        return keyname, "x", hdr
+
+    def ufs_image(self):
+        recs, files = [], []
+        for name in ("swap.state", "swap.state.new", "swap.state.clean"):
+            p = os.path.join(self.cache, name)
+            if not os.path.exists(p):
+                continue
+            d = open(p, "rb").read()
+            items = []
+            for o in range(0, len(d) - 71, 72):
+                r = d[o:o + 72]
+                op = r[0]
+                filen = struct.unpack("<i", r[4:8])[0]
+                ts, lastref, exp, lastmod = struct.unpack("<qqqq", r[8:40])
+                sz = struct.unpack("<Q", r[40:48])[0]
+                refcount, flags = struct.unpack("<HH", r[48:52])
+                key = r[52:68].hex()
+                csum = r[1:4]
+                ok = csum == swap_checksum24(filen & 0xffffffff, sz)
+                times_ok = min(ts, lastref, exp, lastmod) >= -2
+                items.append("%d,%d,%d,%s,%d,%d,%d,%d" % (op, filen, sz, self.h.keyname(key), lastref, flags, int(ok), int(times_ok)))
+            recs.append("%s=%s%s" % (name, "+".join(items) or "-", "~%d" % (len(d) % 72) if len(d) % 72 else ""))
+        for root, dirs, fs in os.walk(self.cache):
+            for fn in sorted(fs):
+                if not re.fullmatch(r"[0-9A-F]{8}", fn):
+                    continue
+                data = open(os.path.join(root, fn), "rb").read()
+                keyname, tag, hdr = self.identify_file(data)
+                files.append((int(fn, 16), "%x,%s,%d,%s" % (int(fn, 16), keyname, len(data), tag)))
+        files.sort()
+        return "ufs:%s:%s" % ("/".join(recs) or "-", ";".join(f[1] for f in files) or "-")
+
+    def image(self):
+        return self.rock_image() if self.sc["store"].startswith("rock") else self.ufs_image()
+
+    def describe_body(self, url, got):
+        """a wrong rock hit body as a sequence of known pieces"""
+        if not self.sc["store"].startswith("rock"):
+            return ""
+        cap = int(self.sc["store"][4:]) - CELL
+        h = self.h.h
+        parts, pos, j = [], 0, 0
+        with self.lock:
+            vers = sorted(self.vers)
+        while pos < len(got):
+            ln = (cap - h) if j == 0 else cap
+            seg = got[pos:pos + ln]
+            tag = "x"
+            for (u, v) in vers:
+                for jj, (lo, s2, plen) in enumerate(self.segments(u, v, cap)):
+                    if s2 == seg and (jj == 0) == (j == 0):
+                        tag = "%sv%dp%d" % (self.short(u.rsplit("/", 1)[1]), v, jj)
+                        break
+                if tag != "x":
+                    break
+            parts.append(tag)
+            pos += ln
+            j += 1
+        return "!pieces(%s)" % "+".join(parts)
+
     # -- phases ------------------------------------------------------------------------------------
     def prepare_injection(self, crash):
         for p in (self.state, self.log):
@@ -433,6 +632,7 @@ class Run:
             killed_by_injection = died and self.sq.proc is not None and self.sq.proc.returncode == -9
             self.sq.kill()
             self.trace.append(self.read_trace())
+            self.images.append(self.image())
             if killed_by_injection:
                 return "start=crashed ops=- events=%d died=1" % len(self.trace[-1])
             return "start=fail:%s ops=- events=%d died=%d" % (self.start_problem(st), len(self.trace[-1]), int(died))
@@ -441,13 +641,19 @@ class Run:
             if not self.sq.alive():
                 break
             res.append(self.do(op))
+        if res and re.search(r"fail|died|Xno-response", res[-1]):
+            for _ in range(100):
+                if not self.sq.alive():
+                    break
+                time.sleep(0.01)
         died = not self.sq.alive()
         extra = ""
-        if crash[0] == "q" and not died:
+        if crash[3] and not died:
             rc = self.sq.term()
             extra = " exit=%s" % rc
         self.sq.kill()
         self.trace.append(self.read_trace())
+        self.images.append(self.image())
         return "start=ok ops=%s events=%d died=%d%s" % (",".join(res) or "-", len(self.trace[-1]), int(died), extra)
 
     def start_problem(self, st):
@@ -526,7 +732,7 @@ class Run:
 
 
 def swaplog_records(data, h):
-    """StoreSwapLogData: op u8, pad, swap_filen i32, timestamp, lastref, expires, lastmod (i64), swap_file_sz u64, refcount u16, flags u16, key[16], checksum"""
+    """StoreSwapLogData: op u8, checksum[3], swap_filen i32, timestamp, lastref, expires, lastmod (i64), swap_file_sz u64, refcount u16, flags u16, key[16], checksum"""
     out = []
     for o in range(0, len(data) - 71, 72):
         op = data[o]
@@ -535,6 +741,15 @@ def swaplog_records(data, h):
         key = data[o + 52:o + 68].hex()
         out.append("%s.%x.%d.%s" % ({1: "ADD", 2: "DEL", 3: "VER"}.get(op, "op%d" % op), filen, sz, h.keyname(key)))
     return "+".join(out) or "?"
+
+
+def swap_checksum24(f1, f2):
+    """SwapChecksum24::set(int32_t f1, uint64_t f2) of src/StoreSwapLogData.cc"""
+    total = (f1 & 0xffffffff) + ((f2 >> 32) & 0xffffffff) + (f2 & 0xffffffff)
+    while total >> 24:
+        total = (total & 0xFFFFFF) + (total >> 24)
+    total = ~total
+    return bytes([total & 0xff, (total >> 8) & 0xff, (total >> 16) & 0xff])
 
 
 class Harness:
@@ -557,6 +772,7 @@ class Harness:
             self.keys[store_key(URLFMT % k).hex()] = "k%d" % k
         for j in range(4):
             self.keys[store_key(EXTRA_URL % j).hex()] = "x%d" % j
+        self.h = 0
         self.h = self.calibrate()
 
     def keyname(self, hexkey):
@@ -579,7 +795,7 @@ class Harness:
         """bytes squid adds to the body of this rig's responses on swap-out (swap metadata + reply header), from a rock trace"""
         run = Run(self, {"store": "rock4096", "h": 0, "nkeys": 1, "phases": []}, 0)
         try:
-            obs = run.run_phase([("S", 0, 100, 1)], ("e", 0, 0))
+            obs = run.run_phase([("S", 0, 100, 1)], ("e", 0, 0, False))
             tr = run.trace[-1]
             total = 0
             for r in tr:
@@ -608,7 +824,7 @@ class Harness:
             for ops, crash in sc["phases"]:
                 obs.append(run.run_phase(ops, crash))
             obs.append(run.finale())
-            return " | ".join(obs) + " trace=" + run.trace_text()
+            return " | ".join(obs) + " trace=" + run.trace_text() + " img=" + "|".join(run.images)
         except (OSError, RuntimeError) as e:
             self.crashes += 1
             return "abort:harness-error:%s:%s" % (type(e).__name__, re.sub(r"\s+", "_", str(e))[:120])
